@@ -10,6 +10,7 @@ import H264.Derived
 import H264.SeiPayloads
 import H264.Render3
 import H264.Context
+import H264.TblModel
 /-! Line-protocol driver: executes the model on the same case lines as the Rust harness and prints the same
 canonical observation per line (see /verif/harness/src/run.rs for the formats). Core-only imports: links as a
 native executable. -/
@@ -370,6 +371,7 @@ def step (st : St) (line : String) : St × String :=
   | ["t35", p] => (st, t35 (bytesOfHex p))
   | ["t35"] => (st, t35 [])
   | "stream" :: policy :: ops => (st, stream policy ops)
+  | ["tbl", name, i] => (st, TblModel.row name i.toNat!)
   | ["hdr", b] => let b := b.toNat!; (st, if b ≥ 128 then "err" else s!"ok {b / 32 % 4} {b % 32} back={b}")
   | ["unittype", b] => let b := b.toNat!; (st, if b > 31 then "err" else s!"ok {b}")
   | ["profile", b] => (st, b)
